@@ -70,6 +70,7 @@ type outcome struct {
 	site     string
 	msg      string
 	ticks    int64
+	allocd   int64 // elements requested through make/Grow in instrumented code during the call
 }
 
 type c07case struct {
@@ -150,6 +151,7 @@ func runOneWithSite(t *target, b []byte) (o outcome) {
 		t.run(b)
 	}()
 	o.ticks = vstep.Count()
+	o.allocd = vstep.Allocated()
 	vstep.Limit = 0
 	vstep.AllocLimit = 0
 	if p {
@@ -260,7 +262,7 @@ func (e *engine) sweepTarget(t *target) {
 			continue
 		}
 		var sizes []int
-		var ticks []int64
+		var ticks, allocs []int64
 		bad := false
 		for n := 256; n <= 65536; n *= 2 {
 			b := p.gen(n)
@@ -271,8 +273,9 @@ func (e *engine) sweepTarget(t *target) {
 			}
 			sizes = append(sizes, len(b))
 			ticks = append(ticks, o.ticks)
+			allocs = append(allocs, o.allocd)
 		}
-		c.Info("steps/"+t.name+"/"+p.name, map[string]interface{}{"sizes": sizes, "steps": ticks})
+		c.Info("steps/"+t.name+"/"+p.name, map[string]interface{}{"sizes": sizes, "steps": ticks, "declared_allocations": allocs})
 		if bad {
 			continue
 		}
@@ -286,6 +289,16 @@ func (e *engine) sweepTarget(t *target) {
 			g2 := float64(sizes[k-1]) / float64(sizes[k-2])
 			if r1 > 1.3*g1 && r2 > 1.3*g2 && ticks[k-1] > 200000 {
 				c.Violation("cost-superlinear/"+t.name+"/"+p.name, fmt.Sprintf("decoder %s on family %s: steps grow x%.2f and x%.2f for input growth x%.2f and x%.2f between the three largest members: sizes %v steps %v", t.name, p.name, r1, r2, g1, g2, sizes, ticks),
+					c07case{Target: t.name, Note: "pump " + p.name})
+			}
+			// the same growth test on the declared-size allocations of the call (elements requested through make/Grow
+			// in library code): a reader that re-allocates and copies what it has per unit of input is quadratic in
+			// memory traffic even where its loop count is linear. Only judged above 64 elements per input byte at
+			// 64 KiB, far more than any buffer-doubling reader requests.
+			a1 := float64(allocs[k-2]) / float64(allocs[k-3]+1)
+			a2 := float64(allocs[k-1]) / float64(allocs[k-2]+1)
+			if a1 > 1.3*g1 && a2 > 1.3*g2 && allocs[k-1] > 64*int64(sizes[k-1]) {
+				c.Violation("cost-superlinear-alloc/"+t.name+"/"+p.name, fmt.Sprintf("decoder %s on family %s: declared-size allocations grow x%.2f and x%.2f for input growth x%.2f and x%.2f between the three largest members: sizes %v allocated elements %v", t.name, p.name, a1, a2, g1, g2, sizes, allocs),
 					c07case{Target: t.name, Note: "pump " + p.name})
 			}
 		}
